@@ -156,7 +156,7 @@ func c11GenOpsL(r *core.Rand, ctx string, depth int, allowCmd, inLoop bool) []c1
 	}
 	var ops []c11Op
 	for i := 0; i < n; i++ {
-		kinds := []string{"trace", "trace", "getline", "getline-var", "getline-file", "getline-var-file", "exit", "exit-n", "assign", "if-nr", "if-v", "loop", "call", "trace", "dowhile", "forever"}
+		kinds := []string{"trace", "trace", "getline", "getline-var", "getline-file", "getline-var-file", "exit", "exit-n", "assign", "if-nr", "if-v", "loop", "call", "trace", "dowhile", "forever", "set-field", "set-nf", "close"}
 		if inLoop {
 			kinds = append(kinds, "break-if-v", "break-if-v")
 		}
@@ -186,6 +186,12 @@ func c11GenOpsL(r *core.Rand, ctx string, depth int, allowCmd, inLoop bool) []c1
 			op.K = r.Range(0, 9)
 		case "break-if-v":
 			op.K = r.Range(0, 9)
+		case "set-field":
+			op.K = r.Range(1, 5)
+		case "set-nf":
+			op.K = r.Range(0, 5)
+		case "close":
+			op.Name = core.Pick(r, []string{"g1", "g2", "f1", "gmissing"})
 		case "if-nr", "if-v", "loop", "call", "dowhile", "forever":
 			if depth >= 2 {
 				op.Kind = "trace"
@@ -319,14 +325,14 @@ func (c11Engine) Gen(r *core.Rand, tier string, i int) any {
 		sc.HasEnd = true
 		sc.End = c11GenOps(r, "end", 0, allowCmd)
 	}
-	for _, name := range []string{"f1", "f2", "f3", "g1", "g2"} {
+	for _, name := range []string{"f1", "f2", "f3", "g1", "g2", "1=x"} {
 		data := c11GenData(r)
 		sc.Files = append(sc.Files, c11File{Name: name, Data: data, D: genDelivery(r, len(data))})
 	}
 	sc.Stdin = c11GenData(r)
 	sc.StdinD = genDelivery(r, len(sc.Stdin))
 	if r.Chance(3, 4) {
-		ops := []string{"f1", "f2", "f3", "f1", "", "v=7", "v=3", "fmissing"}
+		ops := []string{"f1", "f2", "f3", "f1", "", "v=7", "v=3", "fmissing", "NR=10", "1=x"}
 		dash := false
 		for n := r.Range(1, 5); n > 0; n-- {
 			o := core.Pick(r, ops)
@@ -407,6 +413,12 @@ func (g *c11Gen) ops(ops []c11Op) string {
 			fmt.Fprintf(&sb, "exit %d; ", op.K)
 		case "assign":
 			fmt.Fprintf(&sb, "v = %d; ", op.K)
+		case "set-field":
+			fmt.Fprintf(&sb, "$%d = \"F\"; ", op.K)
+		case "set-nf":
+			fmt.Fprintf(&sb, "NF = %d; ", op.K)
+		case "close":
+			fmt.Fprintf(&sb, "close(\"%s\"); trace(\"cl%d\", 0, %s); ", op.Name, id, c11TraceArgs)
 		case "if-nr":
 			fmt.Fprintf(&sb, "if (NR == %d) { %s} ", op.K, g.ops(op.Sub))
 		case "if-v":
@@ -500,6 +512,7 @@ type c11Model struct {
 	filename string
 	rec      string
 	nf       int
+	fields   []string // the current record's fields (explicit once a field or NF was assigned)
 	v, gv    string
 	status   int
 	trace    []c11Trace
@@ -534,6 +547,33 @@ func (m *c11Model) nfOf(rec string) int {
 	return len(strings.Fields(rec))
 }
 
+// setRec makes rec the current record and splits it.
+func (m *c11Model) setRec(rec string) {
+	m.rec = rec
+	if m.sc.CSV {
+		m.fields = nil
+		if rec != "" {
+			m.fields = strings.Split(rec, ",")
+		}
+	} else {
+		m.fields = strings.Fields(rec)
+	}
+	m.nf = len(m.fields)
+}
+
+// rebuild recomputes $0 from the fields (default OFS).
+func (m *c11Model) rebuild() {
+	m.rec = strings.Join(m.fields, " ")
+	m.nf = len(m.fields)
+}
+
+func (m *c11Model) f1() string {
+	if len(m.fields) > 0 {
+		return m.fields[0]
+	}
+	return ""
+}
+
 func (m *c11Model) f1Of(rec string) string {
 	if m.sc.CSV {
 		if i := strings.Index(rec, ","); i >= 0 {
@@ -564,8 +604,11 @@ func (m *c11Model) nextMain() (string, bool, bool) {
 				name := m.argv[m.cursor]
 				m.cursor++
 				if i := strings.Index(name, "="); i > 0 && isIdent(name[:i]) {
-					if name[:i] == "v" {
+					switch name[:i] {
+					case "v":
 						m.v = name[i+1:]
+					case "NR":
+						fmt.Sscan(name[i+1:], &m.nr)
 					}
 					continue
 				}
@@ -612,7 +655,7 @@ func isIdent(s string) bool {
 }
 
 func (m *c11Model) emit(tag string, r int) {
-	m.trace = append(m.trace, c11Trace{tag, r, m.nr, m.fnr, m.filename, m.rec, m.nf, m.v, m.gv, m.f1Of(m.rec)})
+	m.trace = append(m.trace, c11Trace{tag, r, m.nr, m.fnr, m.filename, m.rec, m.nf, m.v, m.gv, m.f1()})
 }
 
 func (m *c11Model) stream(name string) (*c11Stream, bool) {
@@ -657,7 +700,7 @@ func (m *c11Model) run(ops []c11Op) c11Signal {
 			case ok:
 				r = 1
 				if op.Kind == "getline" {
-					m.rec, m.nf = rec, m.nfOf(rec)
+					m.setRec(rec)
 				} else {
 					m.gv = rec
 				}
@@ -677,7 +720,7 @@ func (m *c11Model) run(ops []c11Op) c11Signal {
 				s.pos++
 				r = 1
 				if op.Kind == "getline-file" || op.Kind == "getline-cmd" {
-					m.rec, m.nf = rec, m.nfOf(rec)
+					m.setRec(rec)
 				} else {
 					m.gv = rec
 				}
@@ -704,6 +747,23 @@ func (m *c11Model) run(ops []c11Op) c11Signal {
 			return sigExit
 		case "assign":
 			m.v = fmt.Sprint(op.K)
+		case "set-field":
+			for len(m.fields) < op.K {
+				m.fields = append(m.fields, "")
+			}
+			m.fields = append([]string(nil), m.fields...)
+			m.fields[op.K-1] = "F"
+			m.rebuild()
+		case "set-nf":
+			f := append([]string(nil), m.fields...)
+			for len(f) < op.K {
+				f = append(f, "")
+			}
+			m.fields = f[:op.K]
+			m.rebuild()
+		case "close":
+			delete(m.streams, op.Name)
+			m.emit(fmt.Sprintf("cl%d", id), 0)
 		case "if-nr":
 			if m.nr == op.K {
 				if sig := m.run(op.Sub); sig != sigNone {
@@ -839,7 +899,7 @@ func c11RunModel(sc *c11Scn) *c11Model {
 			if !ok {
 				break
 			}
-			m.rec, m.nf = rec, m.nfOf(rec)
+			m.setRec(rec)
 			for i, rule := range sc.Rules {
 				matched := false
 				if !rule.Range {
